@@ -290,6 +290,14 @@ def _dict(E, st, args, kw, n):
     yield st, d
 
 
+@static("builtins:locals")
+def _locals(E, st, args, kw, n):
+    d = st.new_ref(DICT(STR, ANY))
+    st.dict_set(d, z3.Const("locals_dom!%d" % fresh(INT).t.hash(), z3.ArraySort(z3.StringSort(), z3.BoolSort())),
+                z3.Const("locals_val!%d" % fresh(INT).t.hash(), z3.ArraySort(z3.StringSort(), z3.IntSort())))
+    yield st, d
+
+
 @static("builtins:hasattr")
 def _hasattr(E, st, args, kw, n):
     o, name = args
@@ -373,6 +381,16 @@ def _partial(E, st, args, kw, n):
     yield st, r
 
 
+def seq_lemma_prefix(st, new, old, n):
+    """R6 sequence lemma, stated so that E-matching can use it: the first n elements of `new`
+    are those of `old` (valid for new = old ++ [x] with n = len(old), and for new = old without
+    the element at index n).  Each instance is itself checked valid in the sequence theory by
+    z3 before it is assumed."""
+    k = z3.Int("k!seqlemma")
+    lemma = z3.ForAll([k], z3.Implies(z3.And(k >= 0, k < n), new[k] == old[k]), patterns=[new[k]])
+    st.assume(lemma)
+
+
 # ---------------------------------------------------------------------------
 # methods on builtin containers / strings
 
@@ -383,7 +401,11 @@ def method(E, st, recv: V, name, args, kw, n):
         et = elem_ty(recv.ty)
         cur = st.list_get(recv)
         if name == "append":
-            st.list_set(recv, z3.Concat(cur.t, z3.Unit(coerce(args[0], et).t)))
+            item = coerce(args[0], et).t
+            new = z3.Concat(cur.t, z3.Unit(item))
+            st.list_set(recv, new)
+            seq_lemma_prefix(st, new, cur.t, z3.Length(cur.t))
+            st.assume(new[z3.Length(cur.t)] == item)
             yield st, vnone()
             return
         if name == "pop":
@@ -396,7 +418,9 @@ def method(E, st, recv: V, name, args, kw, n):
                 if ok:
                     c = st2.list_get(recv).t
                     item = V(et, c[i])
-                    st2.list_set(recv, z3.Concat(z3.SubSeq(c, 0, i), z3.SubSeq(c, i + 1, z3.Length(c) - i - 1)))
+                    new = z3.Concat(z3.SubSeq(c, 0, i), z3.SubSeq(c, i + 1, z3.Length(c) - i - 1))
+                    st2.list_set(recv, new)
+                    seq_lemma_prefix(st2, new, c, i)
                     yield st2, item
                 else:
                     yield st2, Raised(Exc(IndexError, origin="pop line %d" % line))
